@@ -32,6 +32,8 @@ import (
 	"net/http"
 	"net/http/httptest"
 	"os"
+	"os/exec"
+	"regexp"
 	"runtime"
 	"strings"
 	"sync"
@@ -797,27 +799,18 @@ func report(p *plan, res result) string {
 	return fmt.Sprintf("ns\t%d\t%s\t%d\t%s\t%s\t%s\t%s", p.id, p.transport, res.status, ctype, hx(res.raw), v, p.desc+" "+hx([]byte(p.body)))
 }
 
-func main() {
-	tier := flag.String("tier", "quick", "")
-	seed := flag.Uint64("seed", 1, "")
-	par := flag.Int("par", 8, "")
-	nSSE := flag.Int("sse", -1, "number of random sse cases (default by tier)")
-	nMP := flag.Int("mp", -1, "number of random mp cases (default by tier)")
-	only := flag.Int("only", -1, "run only this case id")
-	announce := flag.Bool("announce", false, "print BEGIN <id> on stderr before each case")
-	flag.Parse()
-	log.SetOutput(io.Discard) // the transports log decode errors
-	r := rng.New(*seed ^ 0xC12C12)
+func buildPlans(tier string, seed uint64, nSSE, nMP int) []*plan {
+	r := rng.New(seed ^ 0xC12C12)
 	ns, nm, reps := 220, 220, 3
-	if *tier == "thorough" {
+	if tier == "thorough" {
 		ns, nm, reps = 2500, 2500, 25
 	}
-	if *nSSE >= 0 {
-		ns = *nSSE
+	if nSSE >= 0 {
+		ns = nSSE
 		reps = 1 + ns/80
 	}
-	if *nMP >= 0 {
-		nm = *nMP
+	if nMP >= 0 {
+		nm = nMP
 	}
 	var plans []*plan
 	id := 0
@@ -839,30 +832,252 @@ func main() {
 	for i := 0; i < 14; i++ {
 		add(genNS(r.Fork(), id))
 	}
+	return plans
+}
+
+var sourceLine = regexp.MustCompile(`(?m)^\s+(/\S+\.go:\d+)`)
+
+// digest: the interesting part of a crash / race report (first line + gqlgen frames).
+func digest(stderr string, marker string) string {
+	i := strings.Index(stderr, marker)
+	if i < 0 {
+		i = 0
+	}
+	rep := stderr[i:]
+	if len(rep) > 6000 {
+		rep = rep[:6000]
+	}
+	first := strings.SplitN(rep, "\n", 2)[0]
+	var frames []string
+	seen := map[string]bool{}
+	for _, m := range sourceLine.FindAllStringSubmatch(rep, -1) {
+		f := m[1]
+		if strings.Contains(f, "/graphql/handler/transport/") && !seen[f] {
+			seen[f] = true
+			frames = append(frames, f[strings.Index(f, "/graphql/"):])
+		}
+	}
+	return first + " @ " + strings.Join(frames, " ")
+}
+
+// runChild runs the given case ids in a subprocess (a crash of the implementation - e.g. a panic in
+// the keep-alive goroutine - kills the whole process). Returns the lines it printed, and a
+// synthesized `crash` / `race` line when it died.
+func runChild(ids []int, par int, sequentialAnnounce bool) (lines map[int]string, extra []string, culprit int) {
+	lines = map[int]string{}
+	culprit = -1
+	idl := make([]string, len(ids))
+	for i, v := range ids {
+		idl[i] = fmt.Sprint(v)
+	}
+	args := append([]string{}, os.Args[1:]...)
+	args = append(args, "-child", strings.Join(idl, ","), "-par", fmt.Sprint(par))
+	if sequentialAnnounce {
+		args = append(args, "-announce")
+	}
+	ctx, cancel := context.WithTimeout(context.Background(), 10*time.Minute)
+	defer cancel()
+	cmd := exec.CommandContext(ctx, os.Args[0], args...)
+	cmd.Env = append(os.Environ(), "GORACE=halt_on_error=1")
+	var so, se bytes.Buffer
+	cmd.Stdout, cmd.Stderr = &so, &se
+	err := cmd.Run()
+	for _, l := range strings.Split(so.String(), "\n") {
+		f := strings.SplitN(l, "\t", 3)
+		if len(f) == 3 {
+			var id int
+			fmt.Sscan(f[1], &id)
+			lines[id] = l
+		}
+	}
+	if err == nil {
+		return
+	}
+	stderr := se.String()
+	last := -1
+	if sequentialAnnounce {
+		cut := stderr
+		if i := strings.Index(stderr, "WARNING: DATA RACE"); i >= 0 {
+			cut = stderr[:i]
+		} else if i := strings.Index(stderr, "\npanic: "); i >= 0 {
+			cut = stderr[:i]
+		}
+		for _, l := range strings.Split(cut, "\n") {
+			if strings.HasPrefix(l, "BEGIN ") {
+				fmt.Sscan(strings.Fields(l)[1], &last)
+			}
+		}
+	} else if len(ids) == 1 {
+		last = ids[0]
+	}
+	culprit = last
+	kind, marker := "crash", "panic: "
+	if strings.Contains(stderr, "WARNING: DATA RACE") {
+		kind, marker = "race", "WARNING: DATA RACE"
+	} else if ctx.Err() != nil {
+		kind, marker = "timeout", ""
+	} else if !strings.Contains(stderr, "panic: ") {
+		marker = "fatal error: "
+	}
+	extra = append(extra, fmt.Sprintf("%s\t%d\t%s\t%s", kind, last, hx([]byte(digest(stderr, marker))), hx([]byte(tail(stderr, 3000)))))
+	return
+}
+
+func tail(s string, n int) string {
+	if len(s) > n {
+		return s[:n]
+	}
+	return s
+}
+
+func main() {
+	tier := flag.String("tier", "quick", "")
+	seed := flag.Uint64("seed", 1, "")
+	par := flag.Int("par", 6, "")
+	nSSE := flag.Int("sse", -1, "number of random sse cases (default by tier)")
+	nMP := flag.Int("mp", -1, "number of random mp cases (default by tier)")
+	only := flag.String("only", "", "run only these case ids (comma separated)")
+	child := flag.String("child", "", "internal: run these case ids in this process")
+	seq := flag.Bool("seq", false, "one case at a time, announced on stderr (race attribution)")
+	announce := flag.Bool("announce", false, "internal: print BEGIN <id> on stderr before each case")
+	flag.Parse()
+	log.SetOutput(io.Discard) // the transports log decode errors
+	plans := buildPlans(*tier, *seed, *nSSE, *nMP)
 	out := bufio.NewWriterSize(os.Stdout, 1<<20)
 	defer out.Flush()
-	lines := make([]string, len(plans))
-	sem := make(chan struct{}, *par)
+
+	if *child != "" {
+		var mu sync.Mutex
+		sem := make(chan struct{}, *par)
+		var wg sync.WaitGroup
+		for _, f := range strings.Split(*child, ",") {
+			var id int
+			fmt.Sscan(f, &id)
+			p := plans[id]
+			wg.Add(1)
+			sem <- struct{}{}
+			if *announce {
+				fmt.Fprintf(os.Stderr, "BEGIN %d %s %s ka=%dus n=%d\n", p.id, p.kind, p.desc, p.kaUS, len(p.payloads))
+			}
+			go func(p *plan) {
+				defer wg.Done()
+				defer func() { <-sem }()
+				l := report(p, runCase(p))
+				mu.Lock()
+				fmt.Fprintln(out, l)
+				out.Flush()
+				mu.Unlock()
+			}(p)
+		}
+		wg.Wait()
+		return
+	}
+
+	var ids []int
+	if *only != "" {
+		for _, f := range strings.Split(*only, ",") {
+			var id int
+			fmt.Sscan(f, &id)
+			ids = append(ids, id)
+		}
+	} else {
+		for _, p := range plans {
+			ids = append(ids, p.id)
+		}
+	}
+	all := map[int]string{}
+	var extras []string
+	batch := 48
+	cpar := *par
+	if *seq {
+		cpar = 1
+	}
+	var mu sync.Mutex
 	var wg sync.WaitGroup
-	for i, p := range plans {
-		if *only >= 0 && p.id != *only {
-			continue
+	outer := make(chan struct{}, 2)
+	if *seq {
+		outer = make(chan struct{}, 6)
+	}
+	failures := 0
+	for i := 0; i < len(ids); i += batch {
+		j := i + batch
+		if j > len(ids) {
+			j = len(ids)
 		}
 		wg.Add(1)
-		sem <- struct{}{}
-		if *announce {
-			fmt.Fprintf(os.Stderr, "BEGIN %d %s %s ka=%dus n=%d\n", p.id, p.kind, p.desc, p.kaUS, len(p.payloads))
-		}
-		go func(i int, p *plan) {
+		outer <- struct{}{}
+		go func(chunk []int) {
 			defer wg.Done()
-			defer func() { <-sem }()
-			lines[i] = report(p, runCase(p))
-		}(i, p)
+			defer func() { <-outer }()
+			for len(chunk) > 0 {
+				mu.Lock()
+				stop := failures >= 6
+				mu.Unlock()
+				if stop {
+					return
+				}
+				lines, extra, culprit := runChild(chunk, cpar, *seq)
+				mu.Lock()
+				for k, v := range lines {
+					all[k] = v
+				}
+				mu.Unlock()
+				if len(extra) == 0 {
+					return
+				}
+				// the child died: attribute, then go on with what it did not get to
+				var rest []int
+				for _, id := range chunk {
+					if _, ok := lines[id]; !ok && id != culprit {
+						rest = append(rest, id)
+					}
+				}
+				if culprit < 0 {
+					// parallel child: rerun the unfinished ones one per process
+					for _, id := range rest {
+						l2, e2, _ := runChild([]int{id}, 1, false)
+						mu.Lock()
+						for k, v := range l2 {
+							all[k] = v
+						}
+						extras = append(extras, e2...)
+						if len(e2) > 0 {
+							failures++
+						}
+						mu.Unlock()
+					}
+					mu.Lock()
+					if failures == 0 {
+						extras = append(extras, extra...) // died only under load: keep the report, unattributed
+						failures++
+					}
+					mu.Unlock()
+					return
+				}
+				mu.Lock()
+				extras = append(extras, extra...)
+				failures++
+				mu.Unlock()
+				chunk = rest
+			}
+		}(ids[i:j])
 	}
 	wg.Wait()
-	for _, l := range lines {
-		if l != "" {
+	for _, id := range ids {
+		if l, ok := all[id]; ok {
 			fmt.Fprintln(out, l)
 		}
+	}
+	for _, l := range extras {
+		// attach the plan description of the culprit
+		f := strings.SplitN(l, "\t", 3)
+		var id int
+		fmt.Sscan(f[1], &id)
+		d := "unattributed"
+		if id >= 0 && id < len(plans) {
+			p := plans[id]
+			d = fmt.Sprintf("%s %s ka=%dus n=%d tail=%dus", p.kind, p.desc, p.kaUS, len(p.payloads), p.tailUS)
+		}
+		fmt.Fprintln(out, l+"\t"+d)
 	}
 }
